@@ -1,6 +1,10 @@
 SPECIFICATION TSpec
 CONSTANTS
   MaxLen = 0
+  MinFns = 1
+  MaxFns = 1
+  Phased = FALSE
+  NeedResult = FALSE
   MaxDepth = 0
   VNames = {"a"}
   LNames = {"a"}
